@@ -215,6 +215,9 @@ class DictInterp:
         if fn == "dict":
             out = ADict({}, "dict()")
             for a in args + star:
+                if isinstance(a, (list, tuple)) and all(isinstance(x, (list, tuple)) and len(x) == 2 for x in a):
+                    out.data.update({k_: v_ for k_, v_ in a})        # dict(<iterable of pairs>)
+                    continue
                 if not isinstance(a, ADict):
                     raise Unsupported("dict(%r)" % (a,))
                 out.data.update(a.data)
@@ -393,6 +396,14 @@ class DictInterp:
                     self.bind(t, v)
             elif isinstance(s, ast.AnnAssign) and s.value is not None:
                 self.bind(s.target, self.ev(s.value))
+            elif isinstance(s, ast.AugAssign) and isinstance(s.op, (ast.Add, ast.Sub)):
+                cur, r = self.ev(s.target), self.ev(s.value)
+                if isinstance(cur, int) and isinstance(r, int) and not isinstance(cur, bool):
+                    self.bind(s.target, cur + r if isinstance(s.op, ast.Add) else cur - r)
+                elif isinstance(cur, list) and isinstance(r, (list, tuple)) and isinstance(s.op, ast.Add):
+                    cur.extend(r)
+                else:
+                    raise Unsupported("augmented assignment %s" % ast.unparse(s)[:40])
             elif isinstance(s, ast.AugAssign) and isinstance(s.op, ast.BitOr):
                 d = self.ev(s.target)
                 r = self.ev(s.value)
